@@ -45,6 +45,7 @@ class Run:
             nonempty = {ra}
             flags = dict(empty={rb}, sub_nonempty=True)
         self.interp = Interp(project, Config(nonempty=nonempty, finite_inputs=finite, flags=flags))
+        self.project = project
         fi = project.function(qual)
         params = fi.params
         if len(params) < 2:
